@@ -805,6 +805,62 @@ fn s_accept_multishot(k: &dyn Kern) -> Vec<String> {
     t
 }
 
+fn s_recvmsg_select(k: &dyn Kern) -> Vec<String> {
+    use std::os::fd::AsRawFd;
+    let mut t = Vec::new();
+    let r = Raw::new(k, 4, BASE, 0).unwrap();
+    let ring_mem = unsafe { libc::mmap(std::ptr::null_mut(), 4096, libc::PROT_READ | libc::PROT_WRITE, libc::MAP_PRIVATE | libc::MAP_ANONYMOUS, -1, 0) } as *mut u8;
+    let mut bufs = [[0u8; 16]; 2];
+    let reg = BufReg { ring_addr: ring_mem as u64, ring_entries: 2, bgid: 5, ..Default::default() };
+    assert_eq!(k.register(r.fd, REGISTER_PBUF_RING, std::ptr::from_ref(&reg).cast(), 1), 0);
+    unsafe {
+        for i in 0..2 {
+            let e = (ring_mem as *mut BufRingEntry).add(i);
+            (*e).addr = bufs[i].as_mut_ptr() as u64;
+            (*e).len = 16;
+            (*e).bid = 3 + i as u16;
+        }
+        (*(ring_mem.add(14) as *mut std::sync::atomic::AtomicU16)).store(2, std::sync::atomic::Ordering::SeqCst);
+    }
+    let rx = std::net::UdpSocket::bind("127.0.0.1:0").unwrap();
+    let tx = std::net::UdpSocket::bind("127.0.0.1:0").unwrap();
+    let rxfd = rx.as_raw_fd();
+    // msghdr with a name buffer and iov_len entries of (NULL, len).
+    let mut name = [0u8; 32];
+    let mut iov = [libc::iovec { iov_base: std::ptr::null_mut(), iov_len: 0 }, libc::iovec { iov_base: std::ptr::null_mut(), iov_len: 0 }];
+    for (ud, iovlen, want_len) in [(170u64, 1usize, 0usize), (171, 1, 4), (172, 2, 0)] {
+        tx.send_to(b"hello", rx.local_addr().unwrap()).unwrap();
+        iov[0].iov_len = want_len;
+        let mut hdr: libc::msghdr = unsafe { std::mem::zeroed() };
+        hdr.msg_name = name.as_mut_ptr().cast();
+        hdr.msg_namelen = 32;
+        hdr.msg_iov = iov.as_mut_ptr();
+        hdr.msg_iovlen = iovlen;
+        let hp = std::ptr::from_mut(&mut hdr) as u64;
+        r.push(|s| {
+            s[0] = OP_RECVMSG;
+            s[1] = SQE_BUFFER_SELECT;
+            put32(s, 4, rxfd as u32);
+            put64(s, 16, hp);
+            put32(s, 24, 1);
+            s[40..42].copy_from_slice(&5u16.to_ne_bytes());
+            put64(s, 32, ud);
+        });
+        let e = r.enter(1, 0, 0, true);
+        r.sim_complete(Out::Res(5));
+        let c = wait_cqes(&r, 1);
+        t.push(format!("recvmsg+select iovlen={iovlen} iov[0].len={want_len} -> {e} cqes: {} namelen={}", cq(&c), if c.first().is_some_and(|c| c.res >= 0) { hdr.msg_namelen } else { 0 }));
+        if c.first().is_some_and(|c| c.res < 0) {
+            // The datagram is still queued on the real kernel: take it away.
+            let mut b = [0u8; 8];
+            unsafe { libc::recv(rxfd, b.as_mut_ptr().cast(), 8, libc::MSG_DONTWAIT) };
+        }
+    }
+    unsafe { libc::munmap(ring_mem.cast(), 4096) };
+    let _ = (&mut bufs, &mut name);
+    t
+}
+
 fn s_multishot_enobufs(k: &dyn Kern) -> Vec<String> {
     let mut t = Vec::new();
     let r = Raw::new(k, 4, BASE, 0).unwrap();
@@ -863,6 +919,7 @@ pub fn scenarios() -> Vec<Scenario> {
         Scenario { name: "pipe-direct", run: s_pipe_direct },
         Scenario { name: "accept-multishot", run: s_accept_multishot },
         Scenario { name: "multishot-read-enobufs", run: s_multishot_enobufs },
+        Scenario { name: "recvmsg-buffer-select", run: s_recvmsg_select },
     ]
 }
 
